@@ -725,6 +725,12 @@ func One(run *hx.Run, drv *hx.Driver, m Mode, c *Case) {
 	if mr.Class == "result" && mr.Data == nil {
 		run.Tag("data-null")
 	}
+	for _, m := range obs.ErrMsgs {
+		if strings.Contains(m, "cannot represent this value") || strings.Contains(m, "unhashable") {
+			run.Tag("leaf-serialiser-panicked")
+			break
+		}
+	}
 	if worldHasThunk(c.World) {
 		run.Tag("world-has-thunk")
 	}
